@@ -27,6 +27,12 @@ def load_known():
         return json.load(f)
 
 
+def _font_class(desc):
+    """Generated fonts that belong to a class a known finding is about carry a tag in their file name; crashes and hangs on them are keyed
+    with the class so that the finding does not hide the same report on any other font."""
+    return ':extreme-just-attrs' if '_jx.ttf' in (desc or '') else ''
+
+
 class Check:
     def __init__(self, prop, tier, seed):
         self.prop = prop
@@ -56,11 +62,11 @@ class Check:
             for key, text in r.violations:
                 self.violation(key, text, dict(harness=harness, flavour=flavour, cmd=r.cmd, text=text))
             for c in r.crashes:
-                self.violation('san:%s:%s' % (c['kind'], c['site']), c['desc'],
+                self.violation('san:%s:%s%s' % (c['kind'], c['site'], _font_class(c['desc'])), c['desc'],
                                dict(harness=harness, flavour=flavour, args=[str(a) for a in c['args']], case=c['case'],
                                     desc=c['desc'], report=c['report']))
             for t in r.timeouts:
-                self.violation('hang:%s' % (harness or 'case'), t['desc'],
+                self.violation('hang:%s%s' % (harness or 'case', _font_class(t['desc'])), t['desc'],
                                dict(harness=harness, flavour=flavour, args=[str(a) for a in t['args']], case=t['case'],
                                     desc=t['desc']))
             for i in r.internal:
